@@ -93,10 +93,7 @@ func execRocks(h H, rec *pbt.Rec) error {
 		rec.Count("proofs_verified", int64(st.Queries))
 	}
 	rec.Sample(len(h.Steps), h)
-	if err != nil {
-		return fmt.Errorf("%v", err)
-	}
-	return nil
+	return err
 }
 
 // ------------------------------------------------------------------ bplus
